@@ -385,3 +385,23 @@ def gen_mixed_delay_chain(rng):
     order = [0, 1, 2]
     rng.shuffle(order)
     return {"comps": comps, "links": links, "order": order, "end": rng.randint(20, 40)}
+
+
+def gen_pull_ring(rng):
+    """a ring made of pull-based components only (2-3 of them), fed by a time-stepped generator and read by a
+    time-stepped sink: nothing on the ring has a time step, so the cycle is only found when the driver walks
+    through pull-based components; it cannot be resolved and must be reported"""
+    k = rng.randint(2, 3)
+    comps = [{"kind": "time", "start": 0, "steps": [rng.choice([1, 2, 3])]}]
+    comps += [{"kind": "pull", "nout": 1} for _ in range(k)]
+    comps.append({"kind": "time", "start": 0, "steps": [rng.choice([1, 2, 3])]})
+    ring = list(range(1, k + 1))
+    links = [{"src": 0, "out": 0, "dst": ring[0], "ads": [["scale"]] if rng.random() < 0.3 else []}]
+    for a, b in zip(ring, ring[1:] + ring[:1]):
+        links.append({"src": a, "out": 0, "dst": b, "ads": []})
+    links.append({"src": rng.choice(ring), "out": 0, "dst": k + 1, "ads": []})
+    rng.shuffle(links)
+    order = list(range(len(comps)))
+    rng.shuffle(order)
+    return {"comps": comps, "links": links, "order": order, "end": rng.randint(4, 10),
+            "ring": {"resolved": False, "mode": "pull-only"}}
